@@ -2,10 +2,10 @@ package main
 
 import (
 	"bytes"
-	"os"
-	"strings"
 	"fmt"
 	"math/rand"
+	"os"
+	"strings"
 	"sync"
 	"time"
 
@@ -99,10 +99,10 @@ func c15run(c *Check, rng *rand.Rand, env *Env, script *Script, nodes []*TNode, 
 	vn := victim.Node
 	unknownAddr := env.Cl.Nodes[len(env.Cl.Nodes)-1].Addr // a live node that is not part of the topology
 	type reqInfo struct {
-		raw    []byte
-		expect []byte
+		raw      []byte
+		expect   []byte
 		onVictim bool
-		keys   []string
+		keys     []string
 	}
 	var reqs []*reqInfo
 	var gates []*Gate
